@@ -35,6 +35,13 @@ def gen_cases(tier, seed):
                         for closure, cks in (((False, "crc32"), (True, "crc32c")) if (tier == "quick" and n == 3) else itertools.product((False, True), ("crc32", "crc32c"))):
                             cases.append({"t": "recv", "n": n, "L": L, "S": list(S), "arr": list(arr), "closure": closure, "cks": cks,
                                           "order": "desc" if (sum(S) + L) % 2 else "asc"})
+    # timer/PDU race: the late segment is handed over in the very call that detects the e-th expiry
+    for n in (1, 2, 3):
+        for L in (1, 2, 3):
+            for i in range(n):
+                for e in range(1, L + 1):
+                    for closure, cks in itertools.product((False, True), ("crc32", "crc32c")):
+                        cases.append({"t": "recv_race", "n": n, "L": L, "i": i, "e": e, "closure": closure, "cks": cks})
     for size in (0, 9):
         for when in ("never", "before", "at_deadline"):
             cases.append({"t": "send", "size": size, "when": when})
@@ -159,6 +166,72 @@ def run_recv(case):
         return p.viol, obs, trace_summary(w, None, 40)
 
 
+def run_recv_race(case):
+    """Both orders of looking at the timer and at the PDU inside one call are accepted: success in the expiry call, success at the
+    next expiry (e < L), or the check-limit fault in this call (e == L).  Anything else is a violation."""
+    n, L, i, e_race = case["n"], case["L"], case["i"], case["e"]
+    cfg = {"mode": "unack", "closure": case["closure"], "cks": case["cks"], "size": 4 * n - 1, "seg": 4, "check_limit": L,
+           "check_ivl_ms": IVL, "content": n + L, "fs": "mem"}
+    obs = {"race_cases": 1}
+    with World(cfg) as w:
+        D = w.D
+        tc = prep.tx_conf(w)
+        data = w.data
+        md = pdugen.raw("MD", tc, {"size": len(data), "cks": case["cks"], "closure": case["closure"],
+                                   "src_name": w.src_path.as_posix(), "dst_name": w.dst_req_path.as_posix()})
+        eof = pdugen.raw("EOF", tc, {"size": len(data), "cksum": models.checksum(case["cks"], data)})
+        fdi = pdugen.raw("FD", tc, {"offset": 4 * i, "data": data[4 * i : 4 * i + 4]})
+        p = Probe(w, D)
+        p.call(md)
+        for j in range(n):
+            if j != i:
+                p.call(pdugen.raw("FD", tc, {"offset": 4 * j, "data": data[4 * j : 4 * j + 4]}))
+        p.call(eof)
+        p.viol.clear()
+        p.since()
+        t_reset = vclock.now_ms()
+
+        def outcome(got):
+            tx, fh, fins = got
+            hard = [f for f in fh if f[0] != "ignore"]
+            if fins and tuple(fins[0]) == ("NO_ERROR", "DATA_COMPLETE", "FILE_RETAINED"):
+                return "success" if (w.dest_bytes() == data and not hard) else "bad-success"
+            if fins and fins[0][0] == "CHECK_LIMIT_REACHED" and fins[0][1] == "DATA_INCOMPLETE" and hard == [("cancel", "CHECK_LIMIT_REACHED")]:
+                return "fault"
+            if not fins and not hard and not tx:
+                return "open"
+            return "other"
+
+        for e in range(1, e_race):
+            vclock.advance(t_reset + IVL - vclock.now_ms())
+            got = p.call()
+            if outcome(got) != "open":
+                p.viol.append({"clause": "completion-before-the-late-data-arrived", "expiry": e, "got": outcome(got)})
+                return p.viol, obs, trace_summary(w, None, 30)
+            t_reset = vclock.now_ms()
+        vclock.advance(t_reset + IVL - vclock.now_ms())
+        got = p.call(fdi)
+        o = outcome(got)
+        obs["race_outcome_" + o] = 1
+        if o == "success":
+            pass
+        elif o == "fault" and e_race == L:
+            pass
+        elif o == "open" and e_race < L:
+            t_reset = vclock.now_ms()
+            vclock.advance(IVL)
+            got = p.call()
+            if outcome(got) != "success":
+                p.viol.append({"clause": "no-success-at-the-expiry-after-the-data-arrived", "expiry": e_race + 1, "got": outcome(got), "fins": got[2], "fh": got[1]})
+            obs["race_success_at_next_expiry"] = 1
+        else:
+            p.viol.append({"clause": "race-of-check-timer-and-late-data-ends-in-neither-success-nor-limit-fault", "expiry": e_race, "limit": L, "got": o,
+                           "fins": got[2], "fh": got[1]})
+        if D.h.state.name != "IDLE" and not p.viol:
+            p.viol.append({"clause": "not-idle-after-completion", "step": D.h.step.name})
+        return p.viol, obs, trace_summary(w, None, 30)
+
+
 def run_send(case):
     cfg = {"mode": "unack", "closure": True, "size": case["size"], "seg": 4, "check_ivl_ms": IVL, "fs": "mem"}
     obs = {"send_cases": 1}
@@ -189,7 +262,7 @@ def run_send(case):
 
 
 def run_case(case):
-    viol, obs, sample = run_recv(case) if case["t"] == "recv" else run_send(case)
+    viol, obs, sample = {"recv": run_recv, "recv_race": run_recv_race, "send": run_send}[case["t"]](case)
     for v in viol:
         v["case"] = case
     return {"viol": viol, "sig": case, "obs": obs, "sample": sample}
@@ -199,4 +272,4 @@ def exhaustive(tier):
     return True
 
 
-REQUIRED = {"recv_cases": 500, "recv_success": 50, "recv_fault": 50, "send_cases": 6, "sender_check_limit_faults": 2, "expiries": 500}
+REQUIRED = {"recv_cases": 500, "recv_success": 50, "recv_fault": 50, "send_cases": 6, "race_cases": 100, "sender_check_limit_faults": 2, "expiries": 500}
